@@ -235,6 +235,51 @@ def check_unfolding(ctx, lib):
         ctx.expect(not bad, R, "Closure|no-cache-field", "src/operator/closure.rs", "the closure goal must not hold a cache: %s" % bad)
 
 
+class _Quiet:
+    """Context wrapper that records nothing (used to obtain bindings from a rule of another property)."""
+
+    def __init__(self, ctx):
+        self._c = ctx
+
+    def expect(self, cond, *a, **k):
+        return cond
+
+    def violation(self, *a, **k):
+        pass
+
+    def ok(self, *a, **k):
+        pass
+
+    def floor(self, *a, **k):
+        return True
+
+    def __getattr__(self, n):
+        return getattr(self._c, n)
+
+
+class _Prefixed(_Quiet):
+    """Context wrapper that re-labels rule ids of a shared rule with this property's prefix."""
+
+    def __init__(self, ctx, prefix):
+        self._c = ctx
+        self._p = prefix
+
+    def _r(self, rule):
+        return self._p + rule[3:] if rule[:3] != self._p else rule
+
+    def expect(self, cond, rule, *a, **k):
+        return self._c.expect(cond, self._r(rule), *a, **k)
+
+    def violation(self, rule, *a, **k):
+        return self._c.violation(self._r(rule), *a, **k)
+
+    def ok(self, rule, *a, **k):
+        return self._c.ok(self._r(rule), *a, **k)
+
+    def floor(self, rule, *a, **k):
+        return self._c.floor(self._r(rule), *a, **k)
+
+
 def run(ctx, fb, cfg):
     lib = fb.lib
     check_identity(ctx, lib)
@@ -243,6 +288,11 @@ def run(ctx, fb, cfg):
         S = macrolib.load_sem(ctx, fb)
         if S is not None:
             check_templates(ctx, S)
+            # the set of names that get a new variable in an arm is exactly the names of that
+            # alternative (collected per alternative; shared with C13)
+            if fb.macros is not None:
+                bound = C13.check_templates(_Quiet(ctx), S)
+                C13.check_alignment(_Prefixed(ctx, "C15"), fb.macros, bound)
 
 
 def run_once(ctx, tier):
